@@ -67,10 +67,25 @@ func (r *Restoration) Apply(res *pbresource.Resource) error {
 // Commit the restoration. Replaces the in-memory database wholesale and closes
 // any watches.
 func (r *Restoration) Commit() {
-	r.tx.Commit()
+	// Writers publish their events while holding eventLock; keep them out
+	// while the database is swapped.
+	r.s.eventLock.Lock()
+	defer r.s.eventLock.Unlock()
 
 	r.s.mu.Lock()
 	defer r.s.mu.Unlock()
+
+	// Continue the event index of the store that is being replaced. Events of
+	// the old store may still sit in the publisher's queue and topic buffers;
+	// a watch opened after the restore takes its snapshot at an index above all
+	// of them, so they are never replayed on top of the restored state.
+	oldTx := r.s.db.Txn(false)
+	idx, err := currentEventIndex(oldTx)
+	oldTx.Abort()
+	if err == nil {
+		_ = r.tx.Insert(tableNameMetadata, meta{Key: metaKeyEventIndex, Value: idx + 1})
+	}
+	r.tx.Commit()
 
 	r.s.db = r.db
 	r.s.pub.RefreshTopic(eventTopic)
